@@ -24,6 +24,8 @@ def analyse(events, info, parent, returned_normally):
     held_recon = collections.defaultdict(list)  # pid -> locks held, reconstructed from a/r events
     faults = []
     barrier = []
+    in_loop = {}       # pid -> currently between a claim and StopIteration
+    order_edges = {}   # (held lock, acquired lock) -> pid, parallel phase only
     for e in events:
         k = e[0]
         try:
@@ -37,7 +39,13 @@ def analyse(events, info, parent, returned_normally):
                 st['write'] += 1
                 st['write/' + op] += 1
             elif k == 'a':
-                held_recon[int(e[2])].append(int(e[1]))
+                lid, pid = int(e[1]), int(e[2])
+                if held_recon[pid]:
+                    st['nested_acquire'] += 1
+                    if pid != parent or in_loop.get(pid):
+                        for h in held_recon[pid]:
+                            order_edges.setdefault((h, lid), pid)
+                held_recon[pid].append(lid)
                 st['acquire'] += 1
                 st['acquire/' + lock_site.get(int(e[1]), '?')] += 1
             elif k == 'r':
@@ -50,10 +58,12 @@ def analyse(events, info, parent, returned_normally):
             elif k == 'c':
                 rid, pid, i = e[1], int(e[2]), int(e[3])
                 claims[rid].append((pid, i))
+                in_loop[pid] = True
                 claimed_by[pid].add(i)
                 st['claim'] += 1
             elif k == 's':
                 st['stop'] += 1
+                in_loop[int(e[2])] = False
             elif k == 'A':
                 arrays[int(e[1])] = dict(alloc_pid=int(e[2]), shared=e[3] == '1', site=e[4], nbytes=int(e[5]))
                 st['alloc'] += 1
@@ -163,6 +173,13 @@ def analyse(events, info, parent, returned_normally):
     for aid, nz in info.get('nonzero', {}).items():
         if nz and not writes.get(aid):
             st['array_modified_without_logged_write'] += 1
+
+    # ---- lock order: a cycle among parallel-phase nested acquisitions is a schedule without a result (deadlock)
+    st['lock_order_edges'] += len(order_edges)
+    for (a, b), pid in order_edges.items():
+        if a != b and (b, a) in order_edges:
+            problems.append(('lock-order', f'locks {a} and {b} are acquired in both orders inside the parallel loop (by {cn(pid)} and {cn(order_edges[(b, a)])}): potential deadlock'))
+            break
 
     # ---- join audit
     if returned_normally and info.get('unreaped'):
